@@ -1,6 +1,8 @@
 package main
 
 import (
+	"os"
+	"runtime/debug"
 	"fmt"
 	"go/types"
 	"strings"
@@ -39,6 +41,9 @@ func (w *World) verifyFunc(fc *FuncContract, props []string) (res *UnitResult) {
 			if u, ok := r.(unsupportedErr); ok {
 				res.Err = "UNSUPPORTED: " + u.msg
 				res.Obls = x.obls
+				if os.Getenv("GOVC_DEBUG") != "" {
+					fmt.Fprintf(os.Stderr, "%s\n%s\n", u.msg, debug.Stack())
+				}
 				return
 			}
 			panic(r)
@@ -51,6 +56,10 @@ func (w *World) verifyFunc(fc *FuncContract, props []string) (res *UnitResult) {
 	var params []Value
 	for _, p := range fn.Params {
 		v := x.freshValue("p_"+p.Name(), p.Type())
+		if fv, ok := v.(FuncV); ok {
+			fv.Param = p
+			v = fv
+		}
 		x.assumeRanges(st, v, p.Type())
 		params = append(params, v)
 		x.regs[p] = v
@@ -58,6 +67,7 @@ func (w *World) verifyFunc(fc *FuncContract, props []string) (res *UnitResult) {
 	if fn.Signature.Recv() != nil && len(params) > 0 {
 		if pv, ok := params[0].(PtrV); ok && pv.Kind == PRef {
 			x.hyps = append(x.hyps, c.Neq(pv.Base, c.Int(0)))
+			x.ranged[c.Neq(pv.Base, c.Int(0))] = true
 			x.ledger["receiver of "+fc.Name+" assumed non-nil"] = true
 		}
 	}
@@ -83,14 +93,15 @@ func (w *World) verifyFunc(fc *FuncContract, props []string) (res *UnitResult) {
 	}
 	rets := x.runBody(fn, st, params, freevars, fc)
 	for _, r := range rets {
+		x.curBlock = r.blk
 		envR := x.envFor(fn, r.st, x.entry, r.results)
 		for _, cl := range fc.Ensures {
 			t := x.evalBool(cl.Expr, envR)
-			x.oblige(r.st, "ensures", "postcondition: "+cl.Text, r.pos, t, cl.Props, cl.Text)
+			x.oblige(r.st, "ensures", "postcondition: "+cl.Text+r.via, r.pos, t, cl.Props, cl.Text)
 		}
 		if fc.ModifiesGiven {
-			for _, fo := range x.frameGoals(r.st, fc) {
-				x.oblige(r.st, "frame", fo.desc, r.pos, fo.goal, fc.ModProps, "modifies")
+			if g, desc := x.frameConj(r.st, fc); g != nil {
+				x.oblige(r.st, "frame", "unchanged outside the modifies clause: "+desc+r.via, r.pos, g, fc.ModProps, "modifies")
 			}
 		}
 	}
